@@ -29,20 +29,50 @@ def c15Step (_ : Unit) (line : String) : Unit × String :=
         let o2 := idx.map fun i => Gen.proxBox (vget v i) (vget lb i) (vget ub i)
         pure s!"{fmtV o1} {fmtF 0.0} {fmtV o2}") r
     | "pstep" :: r => run (do
-        let γf ← flt; let x ← vec; let d ← vec; let lb ← vec; let ub ← vec
+        let _γ ← flt; let γf ← flt; let x ← vec; let d ← vec; let lb ← vec; let ub ← vec
         let idx := List.range x.length
         let rr := idx.map fun i => Gen.proxStepBox (vget x i) (vget d i) γf (vget lb i) (vget ub i)
         pure s!"{fmtF 0.0} {fmtV (rr.map (·.2))} {fmtV (rr.map (·.1))}") r
     | "l1s" :: r => run (do
         let lam ← flt; let γ ← flt; let v ← vec
-        if lam == 0 then pure s!"{fmtF 0.0} {fmtV v}" else
-        let out := v.map fun a => Gen.l1ProxScalarW lam γ a
-        pure s!"{fmtF (lam * norm1 out)} {fmtV out}") r
+        let (out, h) := l1ProxScalarWeight lam γ v
+        pure s!"{fmtF h} {fmtV out}") r
     | "l1v" :: r => run (do
         let lam ← vec; let γ ← flt; let v ← vec
-        let lam := if lam.length == 0 then v.map (fun _ => 1.0) else lam
-        let out := (List.range v.length).map fun i => Gen.l1ProxVectorW (vget lam i) γ (vget v i)
-        pure s!"{fmtF (norm1 (vmul out lam))} {fmtV out}") r
+        let (out, h) := l1ProxVectorWeight lam γ v
+        pure s!"{fmtF h} {fmtV out}") r
+    -- the generic default of the prox_step customisation point (prox_step from prox)
+    | "gps" :: "l1s" :: r => run (do
+        let lam ← flt; let γ ← flt; let γf ← flt; let v ← vec; let d ← vec
+        let (h, out, fb) := proxStepDefault (l1ProxScalarWeight lam γ) v d γf
+        pure s!"{fmtF h} {fmtV out} {fmtV fb}") r
+    | "gps" :: "l1v" :: r => run (do
+        let lam ← vec; let γ ← flt; let γf ← flt; let v ← vec; let d ← vec
+        let (h, out, fb) := proxStepDefault (l1ProxVectorWeight lam γ) v d γf
+        pure s!"{fmtF h} {fmtV out} {fmtV fb}") r
+    | "gps" :: "cl1s" :: r => run (do
+        let lam ← flt; let γ ← flt; let γf ← flt; let v ← vec; let d ← vec
+        let (_, out, fb) := proxStepDefault
+          (fun w => let q := cplxL1ProxScalarW lam γ (toCVec w); (ofCVec q.1, q.2)) v d γf
+        pure s!"{fmtV out} {fmtV fb}") r
+    | "gps" :: "cl1v" :: r => run (do
+        let lam ← vec; let γ ← flt; let γf ← flt; let v ← vec; let d ← vec
+        let (_, out, fb) := proxStepDefault
+          (fun w => let q := cplxL1ProxVectorW lam γ (toCVec w); (ofCVec q.1, q.2)) v d γf
+        pure s!"{fmtV out} {fmtV fb}") r
+    | "gpsnucpost" :: r => run (do
+        -- NuclearNorm through the generic default; the SVD (σ, U, V) of `in + γ_fwd·fwd_step` is the
+        -- oracle's answer as logged by the harness
+        let lam ← flt; let γ ← flt; let γf ← flt; let rows ← nat; let cols ← nat; let a ← vec; let d ← vec
+        let σ ← vec; let U ← vec; let V ← vec
+        let prox := fun (w : List Float) =>
+          match nuclearPost lam γ σ with
+          | none => (w, 0.0)
+          | some (sv, value, rank) => (nuclearReconstruct rows cols rank sv U V, value)
+        let (h, out, fb) := proxStepDefault prox a d γf
+        match nuclearPost lam γ σ with
+        | none => pure s!"Z {fmtF h} {fmtV out} {fmtV fb}"
+        | some (sv, _, _) => pure s!"S {fmtV sv} {fmtF h} {fmtV out} {fmtV fb}") r
     | "unc" :: r => run (do
         let γ ← flt; let x ← vec; let g ← vec
         let rr := (List.range x.length).map fun i => Gen.proxGradStepUnconstr γ (vget x i) (vget g i)
